@@ -144,7 +144,30 @@ func (e *Engine) storeAt(st *State, t types.Type, l *Term, comp string, v *Term)
 		return
 	}
 	e.leafComp(comp, t)
+	e.noteStoreTarget(comp, l)
 	e.setComp(st, comp, Store(e.comp(st, comp), l, v))
+}
+
+// noteStoreTarget records, during loop discovery, whether a heap component is
+// written at a location that may belong to an object older than the loop.
+func (e *Engine) noteStoreTarget(comp string, l *Term) {
+	for _, d := range e.discovery {
+		obj := LocObj(l)
+		if obj == d.base || knownGreater(obj, d.base) {
+			continue
+		}
+		b1, k1 := linForm(obj)
+		b2, k2 := linForm(d.base)
+		if b1 == b2 && k1.Cmp(k2) >= 0 {
+			continue
+		}
+		d.oldWrites[comp] = true
+	}
+}
+
+type discoveryLevel struct {
+	base      *Term
+	oldWrites map[string]bool
 }
 
 // componentOfLoc recovers the scalar component of a location from its syntax.
